@@ -40,7 +40,10 @@ func init() {
 	}
 }
 
-type c12File struct{ Name, Text string }
+// Mode (updates only): "" / "both" = the edit arrives as didChange, the file is written, didSave
+// repeats it; "change" = didChange only (the buffer now differs from the file on disk);
+// "save" = the file is written with this text and didSave arrives.
+type c12File struct{ Name, Text, Mode string }
 
 // Absolute include paths are spelled with this placeholder in the recorded texts; it is
 // replaced by the case's scratch directory before the text reaches the code under test.
@@ -55,7 +58,8 @@ func c12Texts(v any) []c12File {
 		m, _ := x.(map[string]any)
 		n, _ := m["n"].(string)
 		t, _ := m["t"].(string)
-		out = append(out, c12File{n, t})
+		md, _ := m["mode"].(string)
+		out = append(out, c12File{n, t, md})
 	}
 	return out
 }
@@ -371,16 +375,34 @@ func c12Run(c *Ctx, files, ups []c12File) map[string]any {
 	prevMembers := len(w.VerifMembers())
 	for _, u := range ups {
 		abs := filepath.Join(dir, filepath.FromSlash(u.Name))
-		uj = append(uj, map[string]any{"n": u.Name, "t": u.Text, "c": c12Contrib(dir, u.Name, u.Text)})
+		ue := map[string]any{"n": u.Name, "t": u.Text, "c": c12Contrib(dir, u.Name, u.Text)}
+		if u.Mode != "" && u.Mode != "both" {
+			ue["mode"] = u.Mode
+		}
+		uj = append(uj, ue)
 		st := map[string]any{}
 		text := c12Real(dir, u.Text)
-		w.UpdateFile(abs, text) // didChange
-		st["mid"] = c12View(dir, w)
-		st["midOrder"] = c12Order(dir, w)
-		c12Write(dir, u.Name, text)
-		w.UpdateFile(abs, text) // didSave
-		st["post"] = c12View(dir, w)
-		st["postOrder"] = c12Order(dir, w)
+		switch u.Mode {
+		case "change":
+			w.UpdateFile(abs, text) // didChange; nothing is written
+			st["mid"] = c12View(dir, w)
+			st["midOrder"] = c12Order(dir, w)
+			st["post"], st["postOrder"] = st["mid"], st["midOrder"]
+		case "save":
+			c12Write(dir, u.Name, text)
+			w.UpdateFile(abs, text) // didSave
+			st["post"] = c12View(dir, w)
+			st["postOrder"] = c12Order(dir, w)
+			st["mid"], st["midOrder"] = st["post"], st["postOrder"]
+		default:
+			w.UpdateFile(abs, text) // didChange
+			st["mid"] = c12View(dir, w)
+			st["midOrder"] = c12Order(dir, w)
+			c12Write(dir, u.Name, text)
+			w.UpdateFile(abs, text) // didSave
+			st["post"] = c12View(dir, w)
+			st["postOrder"] = c12Order(dir, w)
+		}
 		st["fresh"] = c12Fresh(dir)
 		steps = append(steps, st)
 		if c.Stats != nil {
@@ -395,6 +417,17 @@ func c12Run(c *Ctx, files, ups []c12File) map[string]any {
 	}
 	impl["steps"] = steps
 	return map[string]any{"cfg": cfg, "limit": 50, "files": fj, "ups": uj, "impl": impl}
+}
+
+// c12DropIncludes removes every include line of a journal text.
+func c12DropIncludes(t string) string {
+	var out []string
+	for _, l := range strings.Split(t, "\n") {
+		if !strings.HasPrefix(l, "include ") {
+			out = append(out, l)
+		}
+	}
+	return strings.Join(out, "\n")
 }
 
 // ---------------------------------------------------------------- generator
@@ -536,12 +569,50 @@ func c12Names(r *rand.Rand, n int) (names []string, mode string) {
 }
 
 func genC12(c *Ctx) {
-	r := c.R
-	maxUps := c.N(5, 8)
-	emit := func(files []c12File, ups []c12File) {
+	genC12Workspaces(c, 1, func(files []c12File, ups []c12File) {
 		out := c12Run(c, files, ups)
 		c.Emit("c12.run", out)
+	})
+	r := c.R
+	// 3. resolveIncludePaths on its own
+	for i := 0; i < c.N(300, 5000); i++ {
+		names := []string{"main.journal", "a.journal", "b.journal", "sub/c.journal", "sub/e.journal"}
+		n := pick(r, names)
+		ts := c12Targets(r, n, names, 50)
+		text := c12Journal(r, c12FakeDir, n, ts, r.IntN(2))
+		c.Emit("c12.contrib", c12ContribCase(c, n, text))
 	}
+}
+
+// c12MembersOnly projects a c12.run case to what property C10 says about a workspace: which
+// files the workspace's resolved include tree holds, and in which order (op c10.ws).
+func c12MembersOnly(out map[string]any) map[string]any {
+	impl := out["impl"].(map[string]any)
+	mem := func(v any) any { return v.(map[string]any)["members"] }
+	p := map[string]any{"root": impl["root"], "init": mem(impl["init"]), "order0": impl["order0"]}
+	var steps []any
+	for _, s := range impl["steps"].([]any) {
+		st := s.(map[string]any)
+		steps = append(steps, map[string]any{"mid": mem(st["mid"]), "midOrder": st["midOrder"],
+			"post": mem(st["post"]), "postOrder": st["postOrder"]})
+	}
+	if steps == nil {
+		steps = []any{}
+	}
+	p["steps"] = steps
+	q := map[string]any{}
+	for k, v := range out {
+		q[k] = v
+	}
+	q["impl"] = p
+	return q
+}
+
+// genC12Workspaces generates workspaces (include graphs over 2..5 files) with update sequences;
+// div scales the budgets down for callers that want a share of the stream (C10).
+func genC12Workspaces(c *Ctx, div int, emit func(files []c12File, ups []c12File)) {
+	r := c.R
+	maxUps := c.N(5, 8)
 
 	genCase := func(names []string, adj func(i, j int) bool, dangling []string, nUps int) {
 		dir := c12FakeDir
@@ -558,7 +629,7 @@ func genC12(c *Ctx) {
 				}
 			}
 			r.Shuffle(len(ts), func(a, b int) { ts[a], ts[b] = ts[b], ts[a] })
-			files = append(files, c12File{n, c12Journal(r, dir, n, ts, r.IntN(4))})
+			files = append(files, c12File{Name: n, Text: c12Journal(r, dir, n, ts, r.IntN(4))})
 		}
 		cur := map[string][]string{}
 		var ups []c12File
@@ -598,7 +669,38 @@ func genC12(c *Ctx) {
 				cur[n] = ts
 				c.Count("update.includes")
 			}
-			ups = append(ups, c12File{n, text})
+			ups = append(ups, c12File{Name: n, Text: text})
+		}
+		// unsaved edits: an update reaches the workspace as didChange only, other updates
+		// follow while the buffer differs from the file, the save comes later
+		if len(ups) > 0 && r.IntN(3) == 0 {
+			k := r.IntN(len(ups))
+			ups[k].Mode = "change"
+			at := k + 1 + r.IntN(len(ups)-k)
+			sv := c12File{Name: ups[k].Name, Text: ups[k].Text, Mode: "save"}
+			if r.IntN(4) == 0 {
+				// in between the include line of the edited file is cut from a file that
+				// includes it and pasted back
+				for i, f := range files {
+					if f.Name != ups[k].Name && strings.Contains(f.Text, "include ") {
+						cut := c12File{Name: f.Name, Text: c12DropIncludes(f.Text)}
+						back := c12File{Name: f.Name, Text: f.Text}
+						_ = i
+						mid := append([]c12File{cut, back}, ups[k+1:at]...)
+						ups = append(append(append([]c12File{}, ups[:k+1]...), mid...), append([]c12File{sv}, ups[at:]...)...)
+						sv.Name = ""
+						c.Count("update.unsaved.cut-paste")
+						break
+					}
+				}
+			}
+			if sv.Name != "" {
+				ups = append(append(append([]c12File{}, ups[:at]...), sv), ups[at:]...)
+			}
+			c.Count("update.unsaved")
+		}
+		if len(ups) > 8 {
+			ups = ups[:8]
 		}
 		emit(files, ups)
 	}
@@ -606,9 +708,9 @@ func genC12(c *Ctx) {
 	// 1. every include graph on 2 and 3 files (self loops included)
 	for n := 2; n <= 3; n++ {
 		total := 1 << (n * n)
-		stride := 1
+		stride := div
 		if n == 3 && !c.Thorough() {
-			stride = 2
+			stride = 2 * div
 		}
 		for g := 0; g < total; g += stride {
 			names, mode := c12Names(r, n)
@@ -622,7 +724,7 @@ func genC12(c *Ctx) {
 	// of recorded views); the offset depends on the seed
 	if c.Thorough() {
 		n := 4
-		for g := int(c.Seed % 7); g < 1<<(n*n); g += 7 {
+		for g := int(c.Seed % 7); g < 1<<(n*n); g += 7 * div {
 			names, mode := c12Names(r, n)
 			c.Count(mode)
 			c.Count(fmt.Sprintf("files.%d", n))
@@ -631,7 +733,7 @@ func genC12(c *Ctx) {
 		}
 	}
 	// 2. random workspaces of 2..5 files, sometimes with include targets that do not exist yet
-	for i := 0; i < c.N(900, 8000); i++ {
+	for i := 0; i < c.N(900, 8000)/div; i++ {
 		n := 2 + r.IntN(4)
 		names, mode := c12Names(r, n)
 		c.Count(mode)
@@ -661,7 +763,7 @@ func genC12(c *Ctx) {
 	// 2b. two or three included files declare different formats for one commodity; the root drops
 	// one include and adds it back (possibly in another position), or only reorders its include
 	// directives: a fresh workspace must report the same formats as the updated one
-	for i := 0; i < c.N(80, 1500); i++ {
+	for i := 0; i < c.N(80, 1500)/div; i++ {
 		n := 3 + r.IntN(2)
 		names, mode := c12Names(r, n)
 		c.Count(mode)
@@ -689,7 +791,7 @@ func genC12(c *Ctx) {
 		}
 		others := append([]string{}, names[1:]...)
 		r.Shuffle(len(others), func(a, b int) { others[a], others[b] = others[b], others[a] })
-		files := []c12File{{names[0], rootText(others)}}
+		files := []c12File{{Name: names[0], Text: rootText(others)}}
 		for k, m := range names[1:] {
 			text := decl(k + 1)
 			if k == 0 && n == 4 && r.IntN(2) == 0 {
@@ -699,7 +801,7 @@ func genC12(c *Ctx) {
 			if r.IntN(2) == 0 {
 				text += "\n" + c12Tx(r)
 			}
-			files = append(files, c12File{m, text})
+			files = append(files, c12File{Name: m, Text: text})
 		}
 		var ups []c12File
 		cur := others
@@ -725,20 +827,12 @@ func genC12(c *Ctx) {
 					c.Count("formats.readd")
 				}
 			}
-			ups = append(ups, c12File{names[0], rootText(cur)})
+			ups = append(ups, c12File{Name: names[0], Text: rootText(cur)})
 		}
 		// end on the full include list so that every declaration counts
 		nx := append([]string{}, names[1:]...)
 		r.Shuffle(len(nx), func(a, b int) { nx[a], nx[b] = nx[b], nx[a] })
-		ups = append(ups, c12File{names[0], rootText(nx)})
+		ups = append(ups, c12File{Name: names[0], Text: rootText(nx)})
 		emit(files, ups)
-	}
-	// 3. resolveIncludePaths on its own
-	for i := 0; i < c.N(300, 5000); i++ {
-		names := []string{"main.journal", "a.journal", "b.journal", "sub/c.journal", "sub/e.journal"}
-		n := pick(r, names)
-		ts := c12Targets(r, n, names, 50)
-		text := c12Journal(r, c12FakeDir, n, ts, r.IntN(2))
-		c.Emit("c12.contrib", c12ContribCase(c, n, text))
 	}
 }
